@@ -58,7 +58,10 @@ def is_solution(cnf, assignment):
     return True
 
 def solve_cnf(cnf, *, debug=False):
-    cnf = copy(cnf)  # avoid modifying the input
+    # Avoid modifying the input. Repeated literals within a clause are dropped:
+    # with them a clause with one unassigned variable is not recognized as unit,
+    # and conflict analysis can learn the same clause forever.
+    cnf = [[lit for i, lit in enumerate(clause) if lit not in clause[:i]] for clause in cnf]
     assigns = dict()
     level = 0
     proofs = dict()
